@@ -598,7 +598,7 @@ func (rt *runtime) convertCallParameter(v Value, t reflect.Type) (reflect.Value,
 			}
 		}
 
-		return reflect.ValueOf(v.String()), nil
+		return reflect.ValueOf(v.String()).Convert(t), nil
 	}
 
 	if v.kind == valueString {
